@@ -687,7 +687,7 @@ pub fn check_main(tier: Tier) -> i32 {
         "sync_facade": {"sync_points": ws.sched.sync_points, "blocked_yields": ws.sched.blocked_yields, "note": "the facade variant is fast_qr compiled against /verif/facade (std/core re-exported, sync primitives and atomics are scheduling points); on a tree without shared state both counters are 0"},
         "real_vs_stub": {
             "real": ["fast_qr QRBuilder/QRCode/SvgBuilder/ImageBuilder/to_str through the public API", "resvg/usvg/tiny-skia/png", "real OS threads (one runnable at a time)"],
-            "stub": ["nothing is stubbed; the only addition is the feature-gated verif_point! seam that yields to the scheduler or unwinds"]
+            "stub": ["nothing of the crate is stubbed; additions: the feature-gated verif_point! seam (a scheduling point) and, in the facade variant only, std::sync / atomics / Condvar / Barrier / mpsc / thread::spawn+scope+join / std::time / thread::sleep / std::env::var replaced by versions that ask the simulator who runs next, what time it is and what the environment says"]
         },
         "workers": w,
     });
@@ -700,7 +700,7 @@ pub fn check_main(tier: Tier) -> i32 {
         vec![
             "interleavings are explored at the granularity of the verif_point! sites (stage boundaries) natively, and at basic-block granularity only in the thorough tier's Miri leg",
             "outcomes are compared only with outcomes of the same build of the crate; no expected value is baked in",
-            "operations killed by an injected fault are exempt from I1 (their outcome is Died); the re-issued operation is not",
+            "a render left early by a failing user callback is exempt from I1 (its outcome is Died); the re-issued render and everything after it are not",
         ],
         wall,
         new_violations,
